@@ -613,9 +613,13 @@ def check_product_inplace(case):
 
 
 def gen_gauss_few(tier, seed):
-    for i, c in enumerate(gen_gauss(tier, seed)):
-        if i % 3 == 0 and i < 180:
-            yield c
+    """at most 60 of the Gaussian pairs, first operand of dimension >= 2."""
+    k = 0
+    for c in gen_gauss(tier, seed):
+        if len(c["g1"]["vars"]) >= 2:
+            k += 1
+            if k % 3 == 0 and k <= 180:
+                yield c
 
 
 def check_canonical_ops(case, part="core"):
@@ -678,7 +682,11 @@ def check_canonical_ops(case, part="core"):
             lhs = gd.to_canonical_factor().marginalize([vs[-1]], inplace=False)
             rhs = gd.marginalize([vs[-1]], inplace=False).to_canonical_factor()
             if not close(lhs.g, rhs.g, 1e-8, 1e-8):
-                return {"key": "wrong", "what": f"canonical form of N({vs}) marginalised over {vs[-1]}: g = {lhs.g}, canonical form of the marginal: g = {rhs.g}"}
+                Kn, hn, _ = canonical_of(mu, S)
+                kjj, hj = Kn[n - 1][n - 1], hn[n - 1]
+                delta = 0.5 * float(hj * hj * kjj - hj * hj / kjj)  # effect of using K_jj instead of its inverse in the quadratic term
+                return {"key": "uninverted-Kjj" if close(lhs.g - rhs.g, delta, 1e-8, 1e-8) else "wrong",
+                        "what": f"canonical form of N({vs}) marginalised over {vs[-1]}: g = {lhs.g}, canonical form of the marginal: g = {rhs.g}"}
         return None
     # ---- reduce: plug x_j = y in
     for red in [list(c) for r in range(1, n) for c in itertools.combinations(vs, r)]:
@@ -771,11 +779,11 @@ def groups(tier):
                     "canonical conversion and round trip, out-of-place product / * with a second Gaussian of dimension 1-3 on an overlapping / "
                     "disjoint scope"),
         Group("gaussian_product_inplace", gen_gauss_few, check_product_inplace, lambda c: True, engine="E3",
-              bound="every third of the first 180 Gaussian pairs: product with the default inplace=True"),
+              bound="every third of the first 180 Gaussian pairs whose first operand has dimension >= 2: product with the default inplace=True"),
         Group("canonical_ops", gen_gauss, check_canonical_ops, lambda c: len(c["g1"]["vars"]) >= 2, engine="E3",
               bound="same seeds: unnormalised canonical factors (PD K, arbitrary h, g): marginalize (K, h), reduce, to_joint_gaussian, product, "
                     "divide, operators, both inplace modes; K, h of marginal(canonical(N)) == canonical(marginal(N))"),
         Group("canonical_marginalize_g", gen_gauss_few, check_canonical_g, lambda c: len(c["g1"]["vars"]) >= 2, engine="E3",
-              bound="every third of the first 180 canonical factors: constant g after marginalize against the Gaussian integral, and against "
+              bound="every third of the first 180 canonical factors of dimension >= 2: constant g after marginalize against the Gaussian integral, and against "
                     "canonical(marginal(N))"),
     ]
